@@ -166,6 +166,33 @@ Proof.
   rewrite E, HF; [|cbn; auto]. cbn. rewrite app_nil_r. apply rev_involutive.
 Qed.
 
+(* frames of natively compiled script code are appended as they are *)
+Lemma run_natives dv st es :
+  s_rstack (run_frames dv st (map (native_frame dv) es))
+  = rev (map (fun e => let '(f, pyname, psname, l) := e in (f, FnNamed (if d_lambda_name dv then psname else pyname), l)) es)
+    ++ s_rstack st.
+Proof.
+  revert st. induction es as [|[[[f pyn] psn] l] es IH]; intros st; [reflexivity|].
+  cbn [map native_frame]. rewrite run_cons, IH. cbn [step s_rstack rev]. rewrite <- app_assoc. reflexivity.
+Qed.
+
+Lemma head_ok_native (cx : ctxinfo) (a : act) (l : line) es :
+  good a ->
+  head_ok a (FAeval cx a (Some l) :: FOther :: FCallFunc None :: map (native_frame all_off) es)
+            ((a_file a, a_name a, l) :: filter is_script (map native_entry es)).
+Proof.
+  intros G st H. rewrite !run_cons.
+  destruct (ast_frame_off cx a l st H) as (E & _).
+  set (st1 := step all_off st (FAeval cx a (Some l))) in *.
+  change (step all_off st1 FOther) with st1.
+  set (st2 := step all_off st1 (FCallFunc None)).
+  assert (E2 : s_rstack st2 = s_rstack st1) by (unfold st2; cbn [step]; destruct (s_func st1); reflexivity).
+  rewrite run_natives, E2. change (s_rstack st1) with (s_rstack (ast_frame all_off cx a l st)). rewrite E.
+  cbn [d_lambda_name all_off].
+  rewrite filter_app, filter_rev_script. cbn [filter rev]. rewrite (is_script_good a l G), <- app_assoc.
+  cbn [app]. reflexivity.
+Qed.
+
 (* ---------- the relation between an exception as frames and as traceback entries ---------- *)
 Definition R (a : act) (x : exc_ps) (y : exc_py) : Prop :=
   match x, y with
@@ -178,6 +205,9 @@ Proof. reflexivity. Qed.
 
 Lemma R_raise cx a n : good a -> R a (x_raise (ps_alg all_off) cx a n) (x_raise py_alg cx a n).
 Proof. intros G. cbn. rewrite line_all_off. split; [apply head_ok_raise, G|reflexivity]. Qed.
+
+Lemma R_native cx a n es : good a -> R a (x_native (ps_alg all_off) cx a n es) (x_native py_alg cx a n es).
+Proof. intros G. cbn. rewrite line_all_off. split; [apply head_ok_native, G|reflexivity]. Qed.
 
 Lemma R_node cx a n x y : R a x y -> R a (x_node (ps_alg all_off) cx a n x) (x_node py_alg cx a n y).
 Proof.
@@ -220,6 +250,7 @@ Qed.
 Lemma g_expr_S {X} (A : alg X) p fu cx a e :
   g_expr A p (S fu) cx a e =
   match e with
+  | ENative n es => RRaise (x_native A cx a n es)
   | EAtom _ => RNormal
   | EFault n => RRaise (x_raise A cx a n)
   | EOp n subs fault =>
@@ -315,7 +346,8 @@ Proof.
                           (wrap (x_node py_alg cx a n) (g_list (g_expr py_alg p fu cx a) es))).
   { intros cx a n es G. eapply rel_wrap; [|apply Les, G]. intros x y. apply R_node. }
   split.
-  - intros cx a e G. rewrite !g_expr_S. destruct e as [n|n|n subs fault|n args c].
+  - intros cx a e G. rewrite !g_expr_S. destruct e as [n es|n|n|n subs fault|n args c].
+    + apply R_native, G.
     + exact I.
     + apply R_raise, G.
     + pose proof (Lwn cx a n subs G) as H. same_shape H. destruct fault; cbn; [apply R_raise, G|exact I].
@@ -382,12 +414,12 @@ Proof.
 Qed.
 
 (* ---------- the deviations of today's code, each alone, on a witness ---------- *)
-Definition only_merge : deviations := mkDev true false false false false false.
-Definition only_rename : deviations := mkDev false true false false false false.
-Definition only_chain : deviations := mkDev false false true false false false.
-Definition only_line : deviations := mkDev false false false true false false.
-Definition only_with : deviations := mkDev false false false false true false.
-Definition only_sticky : deviations := mkDev false false false false false true.
+Definition only_merge : deviations := mkDev true false false false false false false.
+Definition only_rename : deviations := mkDev false true false false false false false.
+Definition only_chain : deviations := mkDev false false true false false false false.
+Definition only_line : deviations := mkDev false false false true false false false.
+Definition only_with : deviations := mkDev false false false false true false false.
+Definition only_sticky : deviations := mkDev false false false false false true false.
 
 Definition pn (l : N) : node := mkNode NkPlain l 0.
 
@@ -451,6 +483,16 @@ Lemma refuted_D187 :
   wf_prog w187 = true /\
   reported only_sticky w187 50 (EnFunc 0 99 false) = RRaise [[(1, FnNamed 11, 9); (1, FnNamed 11, 3)]] /\
   reference_triples w187 50 (EnFunc 0 99 false) = RRaise [[(1, FnNamed 11, 9); (3, FnModule 3, 3)]].
+Proof. repeat split; reflexivity. Qed.
+
+(* D190: f() calls a file-level lambda (line 2) that raises: CPython calls its frame <lambda> (name 30), pyscript
+   __lambda_defn_temp__ (name 31) *)
+Definition only_lambda : deviations := mkDev false false false false false false true.
+Definition w190 : prog := mkProg [mkFunc 1 11 None [SReturn (pn 5) [ENative (pn 5) [(1, 30, 31, 2)]]]] [].
+Lemma refuted_D190 :
+  wf_prog w190 = true /\
+  reported only_lambda w190 50 (EnFunc 0 99 false) = RRaise [[(1, FnNamed 11, 5); (1, FnNamed 31, 2)]] /\
+  reference_triples w190 50 (EnFunc 0 99 false) = RRaise [[(1, FnNamed 11, 5); (1, FnNamed 30, 2)]].
 Proof. repeat split; reflexivity. Qed.
 
 (* a non-trivial instance of the main theorem's hypothesis, exercising calls, recursion, chaining and an import *)
@@ -524,6 +566,7 @@ Section Plain.
 
   Fixpoint plain_expr (caller : act) (e : expr) : bool :=
     match e with
+    | ENative _ _ => false
     | EAtom n => plain_node n
     | EFault n => plain_node n
     | EOp n subs _ => plain_node n && forallb (plain_expr caller) subs
@@ -770,7 +813,8 @@ Section TodayProof.
                                 (wrap (x_node py_alg cx a n) (g_list (g_expr py_alg p fu cx a) es))).
     { intros cx a n es G Pl. eapply rel_wrap; [|apply Les; assumption]. intros x y. apply R'_node. }
     split.
-    - intros cx a e G Pl. rewrite !g_expr_S. destruct e as [n|n|n subs fault|n args c]; cbn [plain_expr] in Pl.
+    - intros cx a e G Pl. rewrite !g_expr_S. destruct e as [n es|n|n|n subs fault|n args c]; cbn [plain_expr] in Pl.
+      + discriminate.
       + exact I.
       + apply R'_raise; assumption.
       + apply andb_true_iff in Pl as [Pn Ps]. pose proof (Lwn cx a n subs G Ps) as H. same_shape H.
